@@ -1,11 +1,12 @@
 #!/bin/sh
-# runs every seeded mutant against its own property's quick check (then thorough if quick misses it); results go to seeded/*/meta.json
+# runs every seeded mutant (or only those without recorded results: --new) against its own property's quick check, then thorough if quick misses it
 cd /verif
 for d in seeded/*/; do
   n=$(basename $d)
-  st=$(python3 -c "import json;print(json.load(open('$d/meta.json')).get('status','')[:11])")
-  [ "$st" = "neutralised" ] && { echo "$n neutralised"; continue; }
+  st=$(python3 -c "import json;m=json.load(open('$d/meta.json'));print('neutralised' if m.get('status','').startswith('neutralised') else ('done' if m.get('checks') else 'todo'))")
+  [ "$st" = "neutralised" ] && continue
+  [ "$1" = "--new" ] && [ "$st" = "done" ] && continue
   out=$(python3 bin/mutant_eval.py run $n quick 2>&1 | tail -1)
-  echo "$out" | cut -c1-150
-  case "$out" in *"exit=1 violations="[1-9]*) ;; *) python3 bin/mutant_eval.py run $n thorough 2>&1 | tail -1 | cut -c1-150;; esac
+  echo "$out" | cut -c1-170
+  case "$out" in *"exit=1 violations="[1-9]*) ;; *) python3 bin/mutant_eval.py run $n thorough 2>&1 | tail -1 | cut -c1-170;; esac
 done
